@@ -467,13 +467,17 @@ def getSourceItem (r0 : Rd) : Res Item × Rd :=
 
 /-! ### _next -/
 
+/-- `try: item = self.fifo_item.popleft() except IndexError: item = self.get_source_item()` -/
+def popOrRead (r : Rd) : Res Item × Rd :=
+  match r.fifo with
+  | x :: f => (.ok x, { r with fifo := f })
+  | [] => getSourceItem r
+
 /-- the `while 1` loop of `_next`: FIFO first, skip comments when ignoring them -/
 def nextRaw : Nat → Rd → Res Item × Rd
   | 0, r => (.stop, r)
   | fuel+1, r =>
-    let p : Res Item × Rd := match r.fifo with
-      | x :: f => (.ok x, { r with fifo := f })
-      | [] => getSourceItem r
+    let p := popOrRead r
     match p.1 with
     | .ok it => if it.isComment && p.2.ignoreComments then nextRaw fuel p.2 else p
     | _ => p
